@@ -46,8 +46,9 @@ type Axiom struct {
 }
 
 type Split struct {
-	Name  string
-	Cases []Clause // Label = case name
+	Name   string
+	AtCall string   // "" = condition on the precondition state; else: assumed on the result of the first call of this callee
+	Cases  []Clause // Label = case name
 }
 
 type Contract struct {
@@ -94,6 +95,7 @@ type Specs struct {
 	Axioms    []*Axiom
 	Consts    map[string]string // ghost named constants
 	Abstract  map[string]Sort   // "btree.Map" -> sort of its abstract value
+	Regions   []*Region
 }
 
 func newSpecs() *Specs {
@@ -542,13 +544,28 @@ func (sp *Specs) loadSpecFile(path, pkgPrefix string, assumed bool) error {
 				return fmt.Errorf("%s:%d: split NAME: [l1] c1 | [l2] c2", path, l.ln)
 			}
 			s := &Split{Name: strings.TrimSpace(rest[:i])}
+			if j := strings.Index(s.Name, "@"); j >= 0 {
+				s.AtCall = strings.TrimSpace(s.Name[j+1:])
+				s.Name = strings.TrimSpace(s.Name[:j])
+			}
 			for _, p := range splitTop(rest[i+1:], '|') {
 				// careful: '||' – splitTop splits on single '|'; re-join empty parts
 				_ = p
 			}
 			parts := splitCases(rest[i+1:])
 			for _, p := range parts {
-				cl, err := mkClause(strings.TrimSpace(p), l.ln)
+				p = strings.TrimSpace(p)
+				if strings.Contains(p, ";;") {
+					cl := Clause{Line: fmt.Sprintf("%s:%d", path, l.ln)}
+					if m := reLabel.FindStringSubmatch(p); m != nil {
+						cl.Label = m[1]
+						p = p[len(m[0]):]
+					}
+					cl.Src = p
+					s.Cases = append(s.Cases, cl)
+					continue
+				}
+				cl, err := mkClause(p, l.ln)
 				if err != nil {
 					return err
 				}
@@ -569,6 +586,17 @@ func (sp *Specs) loadSpecFile(path, pkgPrefix string, assumed bool) error {
 				return err
 			}
 			cur.Asserts[f[0]] = append(cur.Asserts[f[0]], cl)
+		case "region":
+			i := strings.Index(rest, ":")
+			if i < 0 {
+				return fmt.Errorf("%s:%d: region NAME: key, key", path, l.ln)
+			}
+			r := &Region{Name: strings.TrimSpace(rest[:i])}
+			for _, k := range strings.Split(rest[i+1:], ",") {
+				r.Keys = append(r.Keys, strings.TrimSpace(k))
+			}
+			sp.Regions = append(sp.Regions, r)
+			cur = nil
 		case "abstract":
 			f := strings.Fields(rest)
 			if len(f) != 2 {
